@@ -707,7 +707,9 @@ func scenario() {
 		os.WriteFile(filepath.Join(d, name), data, 0666)
 		w.blob(data)
 	}
-	rawBody := func(s string) []byte { return []byte(fmt.Sprintf("{\"Week\":\"%s\",\"note\":\"pre-existing %d\"}", s, rnd.Intn(1000000))) }
+	rawBody := func(s string) []byte {
+		return []byte(fmt.Sprintf("{\"Week\":\"%s\",\"note\":\"pre-existing %d\"}", s, rnd.Intn(1000000)))
+	}
 	upPresent := rnd.Chance(60) || forced
 	if upPresent {
 		os.MkdirAll(w.up, 0777)
@@ -962,7 +964,7 @@ func scenario() {
 		u := upload.VerifNewUploader(dir, url, starts[i], cfg, "v9.9.9", nil)
 		tids[i] = s.Go(func() { u.RunAndClose() })
 	}
-	phase := make([]int, nth)     // tracked phase per thread
+	phase := make([]int, nth)      // tracked phase per thread
 	curWeek := make([]string, nth) // tracked week per thread (reports phase)
 	curFile := make([]string, nth) // ready file being uploaded
 	calls := make([]int, nth)
@@ -1007,7 +1009,20 @@ func scenario() {
 		}
 	}
 	alive := func(i int) bool { return !s.Done(tids[i]) && !killed[i] }
-	stepThread := func(i int) {
+	var stepThread func(i int)
+	stepThread = func(i int) {
+		if s.Last(tids[i]).Blocked {
+			// parked before a mutex another thread held: re-test; no os call is made, nothing to emit
+			if info := s.Step(tids[i]); info.Blocked {
+				for j := range tids {
+					if j != i && alive(j) && !s.Last(tids[j]).Blocked {
+						stepThread(j) // let a thread that can move (the holder is one) go on
+						return
+					}
+				}
+			}
+			return
+		}
 		prelude(i)
 		info0 := s.Last(tids[i])
 		ci := w.classify(info0.Label)
